@@ -1,4 +1,5 @@
 import Aiorpcx.C16.Parse
+import Aiorpcx.C16.Utf8
 import Aiorpcx.Facts.C16
 /-!
 # C16 — SOCKS requests are byte-exact per SOCKS4, SOCKS4a, RFC 1928 and RFC 1929
@@ -197,6 +198,15 @@ theorem socks5_auth_parse (h : Host) (port : Nat) (u p : List Nat) (cfg : Cfg)
   refine ⟨ub, pb, hu, hp, h1, by omega, h3, by omega, ?_⟩
   have := parseUserPass_msg ub pb [] h2 h4
   simpa [Cfg.authBytes] using this
+
+/-- ... and the *strings* come back: a server that parses the RFC 1929 message and decodes
+    the two fields as UTF-8 (RFC 3629) obtains exactly the user name and password given. -/
+theorem socks5_auth_strings (h : Host) (port : Nat) (u p : List Nat) (cfg : Cfg)
+    (hc : mkCfg .socks5 h port (some (u, p)) = .ok cfg) :
+    ∃ ub pb, Spec.parseUserPass cfg.authBytes = some (1, ub, pb, []) ∧
+      Spec.decodeUtf8 (ub.length + 1) ub = some u ∧ Spec.decodeUtf8 (pb.length + 1) pb = some p := by
+  obtain ⟨ub, pb, hu, hp, _, _, _, _, hparse⟩ := socks5_auth_parse h port u p cfg hc
+  exact ⟨ub, pb, hparse, utf8_roundtrip u ub hu _ (by omega), utf8_roundtrip p pb hp _ (by omega)⟩
 
 /-- **The credential message is sent only if the proxy selected method 2** (and only when
     credentials exist).  `c` is any SOCKS5 object waiting for the method-selection reply with
